@@ -11,19 +11,25 @@ Model under verification: `Qwt.PFS` (`src/quadwt/prefetch_support.rs`) and
 
 ## The sampling structure
 
-`PrefetchSupport::new(qv, 11)` walks a level of length `n`; it pushes one flag per symbol at
-every position `i` with `i % 2048 = 0` and at the last position.  Hence each of the four
-sample vectors has `nb n = 1 + ⌈(n-1)/2048⌉` bits (`0` for `n = 0`), the first `j` bits cover
-the first `cov n j = min (2048 (j-1) + 1) n` elements, and the number of ones among the first
-`j` bits of the vector of symbol `k` is `⌊rank k (cov n j) / 2048⌋` (`PfsInv`).  Consequently
+Throughout, `rate = 2 ^ pfsSampleShift` (`PfsP.rate`; `pfsSampleShift` is extracted from the crate,
+`11`, i.e. `rate = 2048`, at the time of writing — the literal forms are the `…_2048` corollaries,
+which take `pfsSampleShift = 11` as a hypothesis that `rfl` discharges).  The only facts used
+about the constant are `1 ≤ pfsSampleShift` (plain tree) and `4 ≤ pfsSampleShift` (Huffman tree:
+`16 ≤ rate`, one lost element per level on at most 16 levels), both decided on the extracted value.
 
-  `approx_rank(tb, p) = 2048 · ⌊rank tb (cov n (⌊p/2048⌋+1)) / 2048⌋`
+`PrefetchSupport::new(qv, pfsSampleShift)` walks a level of length `n`; it pushes one flag per symbol at
+every position `i` with `i % rate = 0` and at the last position.  Hence each of the four
+sample vectors has `nb n = 1 + ⌈(n-1)/rate⌉` bits (`0` for `n = 0`), the first `j` bits cover
+the first `cov n j = min (rate (j-1) + 1) n` elements, and the number of ones among the first
+`j` bits of the vector of symbol `k` is `⌊rank k (cov n j) / rate⌋` (`PfsInv`).  Consequently
+
+  `approx_rank(tb, p) = rate · ⌊rank tb (cov n (⌊p/rate⌋+1)) / rate⌋`
                      `≤ rank tb (min (p+1) n) ≤ min (rank tb p + 1) (count tb)`.
 
 ## Why phase 1 cannot fault
 
-`approx_rank(tb, p)` unwraps `rank1(sample, ⌊p/2048⌋ + 1)`, which is `Some` iff the level is
-non-empty and `⌊p/2048⌋ + 1 ≤ nb n`; this holds for every `p ≤ n` (`approx_rank_in_range`).
+`approx_rank(tb, p)` unwraps `rank1(sample, ⌊p/rate⌋ + 1)`, which is `Some` iff the level is
+non-empty and `⌊p/rate⌋ + 1 ≤ nb n`; this holds for every `p ≤ n` (`approx_rank_in_range`).
 The estimated range `(s, e)` of phase 1 satisfies `s ≤ e ≤ n` at every level:
 `approx(tb, e) + occs_smaller(tb) ≤ count tb + occs_smaller tb ≤ n` (all levels of the plain
 tree have the same length `n = |S| ≥ 1`), and `approx` is monotone (so the final
@@ -49,20 +55,32 @@ abbrev nb (n : Nat) : Nat := PfsP.nbOf n
 /-- number of level elements covered by the first `j` sample bits -/
 abbrev cov (n j : Nat) : Nat := PfsP.covered n j
 
-theorem nb_def (n : Nat) : nb n = if n = 0 then 0 else (n + 2046) / 2048 + 1 := rfl
-theorem cov_def (n j : Nat) : cov n j = if j = 0 then 0 else min (2048 * (j - 1) + 1) n := rfl
+/-- the sample rate, `2 ^ pfsSampleShift` -/
+theorem rate_def : rate = 2 ^ Extracted.pfsSampleShift := rfl
 
-/-- the invariant established by `PrefetchSupport::new qv 11`: shift, four sample vectors, each
+theorem nb_def (n : Nat) : nb n = if n = 0 then 0 else
+    (n + 2 ^ Extracted.pfsSampleShift - 2) / 2 ^ Extracted.pfsSampleShift + 1 := rfl
+theorem cov_def (n j : Nat) : cov n j = if j = 0 then 0 else
+    min (2 ^ Extracted.pfsSampleShift * (j - 1) + 1) n := rfl
+
+/-- the literal forms, for the shift `11` (`rate = rate`) -/
+theorem rate_2048 (h11 : Extracted.pfsSampleShift = 11) : rate = 2048 := PfsP.rate_2048 h11
+theorem nb_def_2048 (h11 : Extracted.pfsSampleShift = 11) (n : Nat) :
+    nb n = if n = 0 then 0 else (n + 2046) / 2048 + 1 := PfsP.nbOf_2048 h11 n
+theorem cov_def_2048 (h11 : Extracted.pfsSampleShift = 11) (n j : Nat) :
+    cov n j = if j = 0 then 0 else min (2048 * (j - 1) + 1) n := PfsP.covered_2048 h11 n j
+
+/-- the invariant established by `PrefetchSupport::new qv pfsSampleShift`: shift, four sample vectors, each
     an `RSNarrow` over a bit list `bits` of length `nb n` whose prefix ranks are the sampled
     prefix ranks of the level -/
 def PfsInv (qv : QV.QVector) (p : PFS.PrefetchSupport) : Prop := PfsRep (QV.abs qv) p
 
 theorem pfsInv_iff (qv : QV.QVector) (p : PFS.PrefetchSupport) :
-    PfsInv qv p ↔ (p.sampleRateShift = 11 ∧ p.samples.size = 4 ∧
+    PfsInv qv p ↔ (p.sampleRateShift = Extracted.pfsSampleShift ∧ p.samples.size = 4 ∧
       ∀ k, k < 4 → ∃ r bits, p.samples[k]? = some r ∧ RSN.Inv r bits ∧
         bits.length = nb (QV.abs qv).length ∧
         ∀ j, j ≤ nb (QV.abs qv).length →
-          Spec.rank true j bits = Spec.rank k (cov (QV.abs qv).length j) (QV.abs qv) / 2048) :=
+          Spec.rank true j bits = Spec.rank k (cov (QV.abs qv).length j) (QV.abs qv) / rate) :=
   ⟨fun h => ⟨h.shift, h.size, h.sample⟩, fun ⟨a, b, c⟩ => ⟨a, b, c⟩⟩
 
 /-- totality of `PrefetchSupport::new` on every well-formed quad vector below the length limit -/
@@ -75,16 +93,21 @@ theorem pfs_new_ok (qv : QV.QVector) (h : QV.Inv qv) (hl : QV.len qv < 2 ^ 43) :
 
 /-- (the bound actually needed is `len + 1 < 2^64`) -/
 theorem pfs_new_ok' (qv : QV.QVector) (h : QV.Inv qv) (hl : (QV.abs qv).length + 1 < two64) :
-    ∃ p, PFS.new qv 11 = .ok p ∧ PfsInv qv p := PfsP.new_ok qv h hl
+    ∃ p, PFS.new qv Extracted.pfsSampleShift = .ok p ∧ PfsInv qv p := PfsP.new_ok qv h hl
+
+theorem pfs_new_ok'_11 (h11 : Extracted.pfsSampleShift = 11) (qv : QV.QVector) (h : QV.Inv qv)
+    (hl : (QV.abs qv).length + 1 < two64) : ∃ p, PFS.new qv 11 = .ok p ∧ PfsInv qv p := by
+  have := pfs_new_ok' qv h hl
+  rwa [h11] at this
 
 /-- the meaning of a single sample bit: bit `j` of the vector of symbol `k` is set iff the
-    running count of `k` passes a multiple of 2048 inside the chunk covered by bit `j` -/
+    running count of `k` passes a multiple of rate inside the chunk covered by bit `j` -/
 theorem pfs_sample_bit {qv : QV.QVector} {p : PFS.PrefetchSupport} (h : PfsInv qv p) (k : Nat)
     (hk : k < 4) : ∃ r bits, p.samples[k]? = some r ∧ RSN.Inv r bits ∧
       bits.length = nb (QV.abs qv).length ∧
       ∀ j, j < nb (QV.abs qv).length →
-        bits[j]? = some (decide (Spec.rank k (cov (QV.abs qv).length j) (QV.abs qv) / 2048 <
-          Spec.rank k (cov (QV.abs qv).length (j + 1)) (QV.abs qv) / 2048)) := by
+        bits[j]? = some (decide (Spec.rank k (cov (QV.abs qv).length j) (QV.abs qv) / rate <
+          Spec.rank k (cov (QV.abs qv).length (j + 1)) (QV.abs qv) / rate)) := by
   obtain ⟨r, bits, h1, h2, h3, h4⟩ := h.sample k hk
   exact ⟨r, bits, h1, h2, h3, fun j hj => sample_bit h4 h3 j hj⟩
 
@@ -94,27 +117,43 @@ theorem pfs_sample_bit {qv : QV.QVector} {p : PFS.PrefetchSupport} (h : PfsInv q
     rank at the end of the chunk of `pos`, a lower estimate of `rank tb pos` up to one element,
     and never more than the number of occurrences of `tb` -/
 theorem approx_rank_ok {qv : QV.QVector} {p : PFS.PrefetchSupport} (h : PfsInv qv p)
-    {tb pos : Nat} (htb : tb < 4) (hpos : pos / 2048 + 1 ≤ nb (QV.abs qv).length) :
+    {tb pos : Nat} (htb : tb < 4) (hpos : pos / rate + 1 ≤ nb (QV.abs qv).length) :
     ∃ v, PFS.approxRankUnchecked p tb pos = .ok v ∧
-      v = Spec.rank tb (cov (QV.abs qv).length (pos / 2048 + 1)) (QV.abs qv) / 2048 * 2048 ∧
-      v ≤ Spec.rank tb (cov (QV.abs qv).length (pos / 2048 + 1)) (QV.abs qv) ∧
+      v = Spec.rank tb (cov (QV.abs qv).length (pos / rate + 1)) (QV.abs qv) / rate * rate ∧
+      v ≤ Spec.rank tb (cov (QV.abs qv).length (pos / rate + 1)) (QV.abs qv) ∧
       v ≤ Spec.rank tb pos (QV.abs qv) + 1 ∧ v ≤ (QV.abs qv).count tb :=
   ⟨_, approx_ok h htb hpos, rfl, approxSpec_le_rank _ _ _, approxSpec_le_succ _ _ _,
     approxSpec_le_count _ _ _⟩
 
 /-- every position `pos ≤ len` of a non-empty level is inside the sample vectors -/
-theorem approx_rank_in_range {n pos : Nat} (hn : 0 < n) (hpos : pos ≤ n) : pos / 2048 + 1 ≤ nb n :=
+theorem approx_rank_in_range {n pos : Nat} (hn : 0 < n) (hpos : pos ≤ n) : pos / rate + 1 ≤ nb n :=
   block_in_range hn hpos
+
+theorem approx_rank_in_range_2048 (h11 : Extracted.pfsSampleShift = 11) {n pos : Nat} (hn : 0 < n)
+    (hpos : pos ≤ n) : pos / 2048 + 1 ≤ nb n := by
+  have := approx_rank_in_range hn hpos
+  rwa [rate_2048 h11] at this
 
 /-- outside, it faults: the `unwrap` of `rank1 = None` (sharpness of the range condition) -/
 theorem approx_rank_fault {qv : QV.QVector} {p : PFS.PrefetchSupport} (h : PfsInv qv p)
-    {tb pos : Nat} (htb : tb < 4) (hpos : ¬ pos / 2048 + 1 ≤ nb (QV.abs qv).length) :
+    {tb pos : Nat} (htb : tb < 4) (hpos : ¬ pos / rate + 1 ≤ nb (QV.abs qv).length) :
     PFS.approxRankUnchecked p tb pos = .error .unwrapNone := by
   obtain ⟨r, bits, hr, hinv, hlen, _⟩ := h.sample tb htb
   unfold PFS.approxRankUnchecked
-  rw [h.shift, uidx_ok' hr, PfsP.ok_bind, Nat.shiftRight_eq_div_pow, hinv.rank1_eq,
+  rw [h.shift, shiftRight_shift, uidx_ok' hr, PfsP.ok_bind, hinv.rank1_eq,
     if_neg (fun hc => hpos (Nat.le_trans hc.2 (Nat.le_of_eq hlen))), PfsP.ok_bind]
   rfl
+
+/-- `approx_rank_ok` in literal form, for the shift `11` -/
+theorem approx_rank_ok_2048 (h11 : Extracted.pfsSampleShift = 11) {qv : QV.QVector}
+    {p : PFS.PrefetchSupport} (h : PfsInv qv p)
+    {tb pos : Nat} (htb : tb < 4) (hpos : pos / 2048 + 1 ≤ nb (QV.abs qv).length) :
+    ∃ v, PFS.approxRankUnchecked p tb pos = .ok v ∧
+      v = Spec.rank tb (cov (QV.abs qv).length (pos / 2048 + 1)) (QV.abs qv) / 2048 * 2048 ∧
+      v ≤ Spec.rank tb (cov (QV.abs qv).length (pos / 2048 + 1)) (QV.abs qv) ∧
+      v ≤ Spec.rank tb pos (QV.abs qv) + 1 ∧ v ≤ (QV.abs qv).count tb := by
+  have := approx_rank_ok h htb (pos := pos) (by rw [rate_2048 h11]; exact hpos)
+  rwa [rate_2048 h11] at this
 
 theorem approx_rank_mono (L : List Nat) (tb : Nat) {p q : Nat} (h : p ≤ q) :
     approxSpec L tb p ≤ approxSpec L tb q := approxSpec_mono L tb h
@@ -269,12 +308,18 @@ example (t : QWT) (h : QWTree.new { pfs := true, W := 8 } [1, 0, 1, 0, 2, 4, 5, 
   rw [rankPrefetch_ok (Or.inl rfl) (by decide) (by decide) (by decide) h]
   decide
 
-/-- the sample vector sizes: 1 bit for one element, 2 up to 2049, 3 from 2050 -/
-example : nb 0 = 0 ∧ nb 1 = 1 ∧ nb 2 = 2 ∧ nb 2049 = 2 ∧ nb 2050 = 3 ∧ nb 4097 = 3 ∧ nb 4098 = 4 := by
+/-- the sample vector sizes: 1 bit for one element, 2 up to `rate + 1`, 3 from `rate + 2` -/
+example : nb 0 = 0 ∧ nb 1 = 1 ∧ nb 2 = 2 ∧ nb (rate + 1) = 2 ∧ nb (rate + 2) = 3 ∧
+    nb (2 * rate + 1) = 3 ∧ nb (2 * rate + 2) = 4 := by
   decide
 
-example : cov 5000 0 = 0 ∧ cov 5000 1 = 1 ∧ cov 5000 2 = 2049 ∧ cov 5000 3 = 4097 ∧
-    cov 5000 4 = 5000 := by decide
+example : cov (2 * rate + 904) 0 = 0 ∧ cov (2 * rate + 904) 1 = 1 ∧
+    cov (2 * rate + 904) 2 = rate + 1 ∧ cov (2 * rate + 904) 3 = 2 * rate + 1 ∧
+    cov (2 * rate + 904) 4 = 2 * rate + 904 := by decide
+
+/-- for the shift `11`: 1 bit for one element, 2 up to 2049, 3 from 2050 -/
+example (h11 : Extracted.pfsSampleShift = 11) : nb 2049 = 2 ∧ nb 2050 = 3 ∧ nb 4097 = 3 ∧ nb 4098 = 4 := by
+  simp only [nb_def_2048 h11]; decide
 
 /-- `PrefetchSupport::new` on a concrete vector: `[1, 3, 2, 3]` gives four 2-bit vectors -/
 example : (do let q ← QV.fromIter [5, -1, 2, 7]
@@ -298,7 +343,7 @@ example : (do let q ← QV.fromIter [5, -1, 2, 7]
 
 The levels of the Huffman tree shrink, so the invariant is `estimate_k ≤ true_k + k` (one
 element lost per level, `approx_rank(tb, p) ≤ rank(tb, p + 1)`), with
-`p ≤ ℓ + 2046 → ⌊p/2048⌋ + 1 ≤ nb ℓ` for every non-empty level.  The HQWT level invariant is
+`p ≤ ℓ + rate - 2 → ⌊p/rate⌋ + 1 ≤ nb ℓ` for every non-empty level.  The HQWT level invariant is
 not available in this development yet; it enters as the explicit hypothesis `Huff.WalkHyp`
 (`D k` = digit list of level `k`, `T k` = true position of the walk at level `k`; the HQWT
 invariant gives `T k = blkStart k + cnt k i`). -/
@@ -311,13 +356,21 @@ theorem pfs_new_of_pushes (digits : List Nat) (hd : ∀ d ∈ digits, d < 4)
     ∃ p, PFS.new (QV.build qvb) Extracted.pfsSampleShift = .ok p ∧ PfsRep digits p :=
   PfsP.new_of_pushes digits hd qvb h
 
-/-- the arithmetic fact: an estimate at most 2046 beyond a position of a non-empty level is
+/-- the arithmetic fact: an estimate at most `rate - 2` beyond a position of a non-empty level is
     inside the sample vectors -/
-theorem est_in_range {n T p k : Nat} (hn : 0 < n) (hT : T ≤ n) (hp : p ≤ T + k) (hk : k ≤ 2046) :
-    p / 2048 + 1 ≤ nb n := PfsP.est_in_range hn hT hp hk
+theorem est_in_range {n T p k : Nat} (hn : 0 < n) (hT : T ≤ n) (hp : p ≤ T + k) (hk : k + 2 ≤ rate) :
+    p / rate + 1 ≤ nb n := PfsP.est_in_range hn hT hp hk
 
-/-- … and it is sharp: at distance 2047 the block is outside (`n = 1`, `p = 2048`) -/
-example : ¬ (2048 / 2048 + 1 ≤ nb 1) := by decide
+theorem est_in_range_2048 (h11 : Extracted.pfsSampleShift = 11) {n T p k : Nat} (hn : 0 < n)
+    (hT : T ≤ n) (hp : p ≤ T + k) (hk : k ≤ 2046) : p / 2048 + 1 ≤ nb n := by
+  have := est_in_range hn hT hp (k := k) (by rw [rate_2048 h11]; omega)
+  rwa [rate_2048 h11] at this
+
+/-- the room needed on the Huffman tree: at most 16 levels (codes of at most 32 bits) -/
+theorem rate_ge_16 : 16 ≤ rate := PfsP.rate_ge_16
+
+/-- … and it is sharp: at distance `rate - 1` the block is outside (`n = 1`, `p = rate`) -/
+example : ¬ (rate / rate + 1 ≤ nb 1) := by decide
 
 /-- one element is lost per level -/
 theorem approx_track (L : List Nat) (tb : Nat) {e T k : Nat} (he : e ≤ T + k) :
